@@ -2,6 +2,7 @@
 import migrun
 
 ASSUME = [
+    "statements that carry their own transaction control (raw_sql scripts) are modelled by coq/mig/Model/MigratorX.v + Script.v as observed on libsqlite3: a nested BEGIN is refused, COMMIT / END publishes the migrator's transaction and leaves the connection in auto-commit, the final commit then fails; the splitter is naive (no `;` inside string literals or trigger bodies; SAVEPOINT outside a transaction not modelled); the theorems hold on histories without such statements (C10_plain_run_x_is_run)",
     "model = coq/mig/Model/Migrator.v with fault injection at any connection call and process death before any call; engine assumption: transactional DDL (everything issued through the transaction is invisible until COMMIT) — SQLite here, PostgreSQL by documentation, MySQL excluded by the property",
     "tie = K-mig: the REAL generated code over real SQLite; the j-th call of the proxy connection returns an error without reaching the engine (a failure after the engine executed the statement is not injected); the error values rotate over seven classes/texts (neutral, 'database is locked', 'database table is locked', 'Lock wait timeout exceeded', 'table … already exists', 'duplicate column name', a connection error); persistent faults make EVERY execution of one pending statement fail — the model has no retry (C10_first_failure_ends_run), so it is given a fault at the first execution; kills are real (process abort before call j, database file re-opened by a new process, hot journal rolled back by libsqlite3)",
     "natural engine refusals are exercised for the duplicate-object class: an object (table / index / column) that a pending statement creates is created by hand before the run; the model is given the call index at which the engine must refuse (computed from the pending list, not from the observation) and predicts Err + unchanged database; the model cannot branch on an error value at all (C10_failure_value_irrelevant); other natural error classes (constraint violations, missing objects) are not generated",
